@@ -2,6 +2,7 @@ package websocket
 
 import (
 	"context"
+	"io"
 	"time"
 )
 
@@ -37,8 +38,14 @@ func verifC10_harmless() {
 	pingNo := 0
 	var msgs [][]byte
 	for i := range ops {
-		ops[i] = vChoose("op", 3)
+		ops[i] = vChoose("op", 4)
+		if bg && ops[i] == 3 {
+			ops[i] = 0
+		}
 		switch ops[i] {
+		case 3: // an unfragmented message, empty or not
+			msgs = append(msgs, vBytes("m", vChoose("ulen", 2)))
+			in = append(in, mk(vFrame{fin: true, opcode: 2, payload: msgs[len(msgs)-1]}))
 		case 0, 1:
 			writes++
 		case 2:
@@ -87,9 +94,16 @@ func verifC10_harmless() {
 				w.Write(vBytes("w", 1))
 				vAssert(w.Close() == nil, "C10.harmless.writer-close-ok")
 			}
-		case bg:
+		case op == 2 && bg:
 			vAssert(c.Ping(ctx) == nil, "C10.harmless.ping-ok")
 			vReach("C10.harmless.ping")
+		case op == 3:
+			typ, b, err := c.Read(ctx)
+			vAssert(vAnd(err == nil, vAnd(typ == MessageBinary, vEqBytes(b, msgs[mi]))), "C10.harmless.read-unfragmented-ok")
+			if len(msgs[mi]) == 0 {
+				vReach("C10.harmless.read-empty-message")
+			}
+			mi++
 		default:
 			typ, r, err := c.Reader(ctx)
 			vAssert(vAnd(err == nil, typ == MessageBinary), "C10.harmless.reader-ok")
@@ -126,7 +140,7 @@ func verifC10_cancel() {
 	vInstallRand()
 	t := vNewTransport(nil)
 	t.endMode = vEndBlock
-	which := vChoose("call", 4)
+	which := vChoose("call", 5)
 	if which == 1 || which == 2 {
 		t.writeBlock = true
 	}
@@ -150,6 +164,35 @@ func verifC10_cancel() {
 		err = c.Write(ctx, MessageBinary, vBytes("w", 2))
 	case 2:
 		err = c.Ping(ctx)
+	case 4:
+		// a streamed message: the first chunk stays in the write buffer and leaves only a few bytes free; the header of
+		// the next (non-final) frame then forces a flush, which blocks because the peer does not read
+		cancel()
+		c.CloseNow()
+		t = vNewTransport(nil)
+		t.endMode = vEndBlock
+		t.writeBlock = true
+		c = vNewConn(t, client, nil, 32, 32)
+		ctx, cancel = context.WithTimeout(vBG, time.Second)
+		var w io.WriteCloser
+		w, err = c.Writer(ctx, MessageBinary)
+		vAssert(err == nil, "C10.cancel.writer-ok")
+		if err == nil {
+			hdr := 2
+			if client {
+				hdr = 6
+			}
+			free := vChoose("freeAfterFirst", 4) // bytes left in the 32-byte buffer after the first frame
+			_, err = w.Write(vBytes("w", 32-hdr-free))
+			vAssert(err == nil, "C10.cancel.first-chunk-buffered")
+			start = vGhostElapsed()
+			_, err = w.Write(vBytes("w", 1+vChoose("second", 3)))
+			if err == nil {
+				// everything still fitted: closing the writer must flush, and block
+				err = w.Close()
+			}
+		}
+		vReach("C10.cancel.blocked-flush")
 	case 3:
 		// reading the body of a message whose payload never arrives completely
 		cancel()
